@@ -47,6 +47,8 @@ BORROW = {
     "C13": [("C14", "r14_3"), ("C14", "r14_5")],
     # factories build their curve through from_vertices / the segments setter
     "C16": CHAIN + SIGN + VERTICES,
+    # directly constructed composites answer containment like the operator-built ones
+    "C19": [("C03", "r03_2"), ("C03", "r03_2b"), ("C03", "r03_3")],
     # fills and outlines are decided by the orientation sign
     "C20": SIGN,
 }
